@@ -9,6 +9,7 @@ import DnaModel.Model.Space
 import DnaModel.Model.TableSpec
 import DnaModel.Model.Builtin
 import DnaModel.Model.Report
+import DnaModel.Model.Label
 
 open Dna
 
@@ -556,6 +557,62 @@ def handleReport : List String → Option String
     pure (toString (weightedTotal es).toBits)
   | _ => none
 
+def hexVal (c : Char) : Option Nat :=
+  if c.isDigit then some (c.toNat - '0'.toNat)
+  else if 'a' ≤ c && c ≤ 'f' then some (c.toNat - 'a'.toNat + 10) else none
+
+def unhex : List Char → Option (List Char)
+  | [] => some []
+  | a :: b :: r => do
+    let x ← hexVal a; let y ← hexVal b
+    let rest ← unhex r
+    pure (Char.ofNat (x * 16 + y) :: rest)
+  | _ => none
+
+def hexDigit (n : Nat) : Char := if n < 10 then Char.ofNat (n + '0'.toNat) else Char.ofNat (n - 10 + 'a'.toNat)
+def hex (s : List Char) : String :=
+  if s.isEmpty then "." else String.ofList (s.flatMap fun c => [hexDigit (c.toNat / 16 % 16), hexDigit (c.toNat % 16)])
+
+def atomStr : Label.Atom → String
+  | .int n => s!"i:{n}"
+  | .float t => s!"f:{hex t}"
+  | .str t => s!"s:{hex t}"
+
+def valStr : Label.Val → String
+  | .atom a => atomStr a
+  | .list as => "l:[" ++ joinWith ";" (as.map atomStr) ++ "]"
+
+def perrStr : Label.PErr → String
+  | .valueError => "ValueError"
+  | .typeError => "TypeError"
+  | .outOfModel => "out-of-model"
+
+def parsedStr (p : Label.Parsed) : String :=
+  let ks := p.kwargs.map (fun e => (String.ofList e.1, s!"{hex e.1}={valStr e.2}"))
+  let ks := (ks.toArray.qsort (fun a b => a.1 < b.1)).toList.map (·.2)
+  (if p.role == .constraint then "constraint" else "objective") ++ " " ++ p.cls ++ " | " ++
+    joinWith " " (p.args.map atomStr) ++ " | " ++ joinWith " " ks
+
+def handleLabel : List String → Option String
+  | ["label.parse", h] => do
+    let l ← unhex (if h == "." then [] else h.toList)
+    pure (match Label.listFromLabel Gen.specRegistry l with
+      | .error e => perrStr e
+      | .ok ps => joinWith " & " (ps.map parsedStr))
+  | ["label.value", h] => do
+    let l ← unhex (if h == "." then [] else h.toList)
+    pure (atomStr (Label.formatAtom l))
+  | "label.find" :: rest => do
+    -- label.find <type> <label hex|-> <note hex|->
+    match rest with
+    | [ty, lab, note] =>
+      let dec (x : String) : Option (Option (List Char)) :=
+        if x == "-" then some none else (unhex (if x == "." then [] else x.toList)).map some
+      let f : Label.Feature := ⟨ty, ← dec lab, ← dec note, 0, 0, 0⟩
+      pure (match Label.findLabel f with | none => "none" | some l => hex l)
+    | _ => none
+  | _ => none
+
 def handle (toks : List String) : String :=
   match toks with
   | [] => "bad-op"
@@ -568,6 +625,7 @@ def handle (toks : List String) : String :=
       else if cmd.startsWith "choice." then handleChoice toks
       else if cmd.startsWith "solve." then handleSolve toks
       else if cmd.startsWith "report." then handleReport toks
+      else if cmd.startsWith "label." then handleLabel toks
       else if cmd.startsWith "spec." || cmd.startsWith "tables." then handleSpec toks
       else none
     r.getD "bad-op"
